@@ -12,6 +12,7 @@ import (
 	"time"
 
 	"github.com/paulmach/orb"
+	"github.com/paulmach/orb/clip"
 	"pgregory.net/rapid"
 
 	"verifharness/internal/exact"
@@ -175,7 +176,41 @@ func drawGridCase(t *rapid.T) (Case, string) {
 			return orb.Point{paletteCoord(t, box.Min[0], box.Max[0], "px"), paletteCoord(t, box.Min[1], box.Max[1], "py")}
 		}
 	}
-	return finishCase(t, box, rapid.Bool().Draw(t, "open"), p, name, false)
+	c, name := finishCase(t, box, rapid.Bool().Draw(t, "open"), p, name, false)
+	return c, name
+}
+
+// signedZeros (one lattice case in eight, before any rescaling): translate the case so
+// that the box's lower left corner is the origin and give every zero coordinate a
+// random sign: -0 and +0 are the same number on an edge.
+func signedZeros(t *rapid.T, c Case) Case {
+	if rapid.IntRange(0, 7).Draw(t, "zeros") != 0 {
+		return c
+	}
+	ox, oy := float64(c.Box.Min[0]), float64(c.Box.Min[1])
+	mode := rapid.IntRange(0, 2).Draw(t, "zsign")
+	k := 0
+	z := func(v float64, isBox bool) float64 {
+		if v != 0 {
+			return v
+		}
+		k++
+		if mode == 0 || (mode == 1 && !isBox) || (mode == 2 && k%2 == 0) {
+			return math.Copysign(0, -1)
+		}
+		return 0
+	}
+	mv := func(p gen.P, isBox bool) gen.P {
+		return gen.P{gen.F(z(float64(p[0])-ox, isBox)), gen.F(z(float64(p[1])-oy, isBox))}
+	}
+	c.Box.Min, c.Box.Max = mv(c.Box.Min, true), mv(c.Box.Max, true)
+	for i := range c.Lines {
+		for j := range c.Lines[i] {
+			c.Lines[i][j] = mv(c.Lines[i][j], false)
+		}
+	}
+	stats.Class("signed zeros on the box edges")
+	return c
 }
 
 func finishCase(t *rapid.T, box orb.Bound, open bool, p ptGen, name string, snap bool) (Case, string) {
@@ -198,6 +233,9 @@ func finishCase(t *rapid.T, box orb.Bound, open bool, p ptGen, name string, snap
 			snapNearAxis(ls)
 		}
 		c.Lines = append(c.Lines, gen.Pts(ls))
+	}
+	if !snap {
+		c = signedZeros(t, c)
 	}
 	// exact change of length scale: multiply everything by 2^k (the exact model scales with it;
 	// a tolerance with an absolute unit would become vacuous or false at the far ends)
@@ -499,6 +537,78 @@ func TestPropConcurrent(t *testing.T) {
 	})
 }
 
+// TestPropConcurrentOptions: one small lattice line whose open and closed clips
+// differ, clipped by 2..8 goroutines at the same time, half of them with
+// OpenBound(true) and half with OpenBound(false) or no option, thousands of
+// short calls each: state shared between calls while the options are taken in
+// (a window of a few instructions) shows as an open result where a closed one
+// is due or the other way round. The group is replayed like a TestPropConcurrent group.
+func TestPropConcurrentOptions(t *testing.T) {
+	assumptions()
+	stats.Check(t, 300, 6000, func(rt *rapid.T) {
+		var base Case
+		for try := 0; ; try++ {
+			x0, x1 := orderedInts(rt, 1, 5, "bx")
+			y0, y1 := orderedInts(rt, 1, 5, "by")
+			box := orb.Bound{Min: orb.Point{float64(x0), float64(y0)}, Max: orb.Point{float64(x1), float64(y1)}}
+			n := rapid.IntRange(2, 4).Draw(rt, "n")
+			ls := make(orb.LineString, n)
+			for i := range ls {
+				ls[i] = orb.Point{float64(rapid.IntRange(0, 6).Draw(rt, "x")), float64(rapid.IntRange(0, 6).Draw(rt, "y"))}
+			}
+			base = mkCase(box, false, ls)
+			a, b := exact.ClipLine(box, ls, false), exact.ClipLine(box, ls, true)
+			if !reflect.DeepEqual(a.Runs, b.Runs) || try > 20 {
+				break
+			}
+		}
+		n := rapid.IntRange(2, 8).Draw(rt, "goroutines")
+		cs := make([]Case, n)
+		for i := range cs {
+			cs[i] = base
+			cs[i].Open = i%2 == 0
+		}
+		stats.Class(fmt.Sprintf("option storm:%d goroutines", n))
+		stats.NonTrivial("storm:" + gen.JSON(cs))
+		f, err := optionStorm(cs, 4000)
+		if err != nil {
+			stats.Try(rt, "TestPropConcurrentOptions", cs, func() error { return err })
+		}
+		stats.TryParallel(rt, "TestPropConcurrentOptions", cs, n, 8, f)
+	})
+}
+
+// optionStorm: goroutine i calls clip.LineString on case i `calls` times per
+// round (closed cases alternate between no option and OpenBound(false)) and
+// compares with the result computed alone.
+func optionStorm(cs []Case, calls int) (func(i int) error, error) {
+	refs := make([]orb.MultiLineString, len(cs))
+	for i, c := range cs {
+		if err := stats.Guard(func() error { return checkCase(c) }); err != nil {
+			return nil, fmt.Errorf("case %d of the group fails on its own: %w", i, err)
+		}
+		refs[i] = clip.LineString(c.Box.Bound(), c.lines()[0], clip.OpenBound(c.Open))
+	}
+	return func(i int) error {
+		box, ls := cs[i].Box.Bound(), cs[i].lines()[0]
+		for k := 0; k < calls; k++ {
+			var got orb.MultiLineString
+			switch {
+			case cs[i].Open:
+				got = clip.LineString(box, ls, clip.OpenBound(true))
+			case k%2 == 0:
+				got = clip.LineString(box, ls, clip.OpenBound(false))
+			default:
+				got = clip.LineString(box, ls)
+			}
+			if !sameMLS(got, refs[i]) {
+				return fmt.Errorf("call %d with open=%v gives %v, alone it gives %v", k, cs[i].Open, got, refs[i])
+			}
+		}
+		return nil
+	}, nil
+}
+
 // ---------------------------------------------------------------- exhaustive lattice
 
 func lattice() ([]orb.Point, []orb.Bound) {
@@ -701,6 +811,23 @@ func TestReplay(t *testing.T) {
 	_, raw, ok := stats.Replaying()
 	if !ok {
 		t.Skip("no replay file")
+	}
+	if name, _, _ := stats.Replaying(); name == "TestPropConcurrentOptions" {
+		var cs []Case
+		if err := json.Unmarshal(raw, &cs); err != nil {
+			t.Fatal(err)
+		}
+		f, err := optionStorm(cs, 20000)
+		if err != nil {
+			t.Fatalf("replayed option storm: %v", err)
+		}
+		for k := 0; k < 20; k++ {
+			if err := stats.ParallelErr(len(cs), 20, f); err != nil {
+				t.Fatalf("replayed option storm still fails: %v", err)
+			}
+		}
+		fmt.Println("replayed option storm passes")
+		return
 	}
 	if name, _, _ := stats.Replaying(); name == "TestPropConcurrent" {
 		var cs []Case
